@@ -45,7 +45,7 @@ KERNELS = {
 NAT_KERNELS = {"_check_regular_chunks", "to_chunksize"}
 
 GEN_HEADER = r"""
-From CubedV Require Import Model.Util Model.Memory Model.Rechunk Model.Regular Model.Dag Model.FuseGuard Model.Admission Proofs.FuseGuardProofs Proofs.AdmissionProofs.
+From CubedV Require Import Model.Util Model.Memory Model.Rechunk Model.Regular Model.Dag Model.FuseGuard Model.Admission Model.Resume Proofs.FuseGuardProofs Proofs.AdmissionProofs Proofs.ResumeProofs.
 From Gen Require Import Gen.
 Local Open Scope Z_scope.
 
@@ -152,7 +152,7 @@ OBJ_KERNELS = {
 }
 FUSE_FIELDS = ["projected_mem", "allowed_mem", "reserved_mem", "num_tasks"]
 # the admission test (cubed/core/plan.py): strictly shaped functions, see translate_admission
-ADMISSION_KERNELS = ["Plan._find_ops_exceeding_memory", "FinalizedPlan.validate", "admission.wiring"]
+ADMISSION_KERNELS = ["Plan._find_ops_exceeding_memory", "FinalizedPlan.validate", "admission.wiring", "already_computed", "resume.wiring"]
 
 EQUIV.update({
     "is_fuse_candidate": r"""
@@ -212,8 +212,19 @@ Corollary source_admission_spec : forall nodes,
 Proof. intros. rewrite gen_validate_raises_equiv, gen__find_ops_exceeding_memory_equiv. apply plan_refused_iff. Qed.
 """,
     "admission.wiring": "",
+    "already_computed": r"""
+Theorem gen_already_computed_equiv : forall hp outs, gen_already_computed hp outs = already_computedZ hp outs.
+Proof. intros. reflexivity. Qed.
+(* the source skips an operation on resume only if every stored output is present, not 0-d, and fully initialised *)
+Corollary source_skips_only_complete : forall outs,
+  gen_already_computed true outs = Some true ->
+  (exists t, In t outs /\ t <> NoTarget) /\
+  forall t, In t outs -> t = NoTarget \/ exists nd n, t = Arr nd n n /\ nd <> 0.
+Proof. intros outs. rewrite gen_already_computed_equiv. apply skipped_only_if_complete. Qed.
+""",
+    "resume.wiring": "",
 })
-DEPS.update({"FinalizedPlan.validate": ["Plan._find_ops_exceeding_memory"], "admission.wiring": []})
+DEPS.update({"FinalizedPlan.validate": ["Plan._find_ops_exceeding_memory"], "admission.wiring": [], "resume.wiring": []})
 DEPS.update({"can_fuse_primitive_ops": ["is_fuse_candidate"],
              "can_fuse_multiple_primitive_ops": ["MemoryModeller.allocate", "MemoryModeller.free", "peak_projected_mem", "is_fuse_candidate"],
              "fuse_multiple.fields": ["MemoryModeller.allocate", "MemoryModeller.free", "peak_projected_mem"]})
@@ -551,6 +562,46 @@ def translate_admission(name, repo):
         if not ex or U(ex[0]) != "self.validate()":
             raise TranslationError("FinalizedPlan.execute must call self.validate() first")
         return "(* admission.wiring: structural obligations on _finalize / FinalizedPlan.__init__ / execute hold *)\n"
+    if name == "already_computed":
+        fn = next((n for n in tree.body if isinstance(n, ast.FunctionDef) and n.name == "already_computed"), None)
+        if fn is None or [a.arg for a in fn.args.args] != ["name", "dag", "nodes"]:
+            raise TranslationError("already_computed: not found / signature")
+        b = _nodoc(fn.body)
+        want = ["pipeline = nodes[name].get('pipeline', None)", "if pipeline is None:\n    return True",
+                "if all([nodes[output].get('target', None) is None for output in dag.successors(name)]):\n    return False"]
+        if len(b) != 5 or [U(x) for x in b[:3]] != want or U(b[4]) != "return True":
+            raise TranslationError("already_computed: prologue / epilogue")
+        loop = b[3]
+        if not (isinstance(loop, ast.For) and not loop.orelse and U(loop.target) == "output" and U(loop.iter) == "dag.successors(name)" and len(loop.body) == 2
+                and U(loop.body[0]) == "target = nodes[output].get('target', None)"):
+            raise TranslationError("already_computed: loop header")
+        g = loop.body[1]
+        if not (isinstance(g, ast.If) and not g.orelse and U(g.test) == "target is not None" and len(g.body) == 1 and isinstance(g.body[0], ast.Try)):
+            raise TranslationError("already_computed: target guard")
+        t = g.body[0]
+        if not (len(t.body) == 3 and not t.orelse and not t.finalbody and len(t.handlers) == 1
+                and U(t.handlers[0].type) == "(ArrayNotFoundError, GroupNotFoundError)" and [U(x) for x in t.handlers[0].body] == ["return False"]
+                and U(t.body[0]) == "target = open_if_lazy_zarr_array(target)"
+                and isinstance(t.body[1], ast.If) and U(t.body[1].test) == "not hasattr(target, 'nchunks_initialized')" and not t.body[1].orelse
+                and len(t.body[1].body) == 1 and isinstance(t.body[1].body[0], ast.Raise) and U(t.body[1].body[0].exc.func) == "NotImplementedError"
+                and isinstance(t.body[2], ast.If) and not t.body[2].orelse and [U(x) for x in t.body[2].body] == ["return False"]):
+            raise TranslationError("already_computed: try block")
+        tr = Tr([("target", {"ndim": "Z", "nchunks_initialized": "Z", "nchunks": "Z"})])
+        test = tr.expr(t.body[2].test)
+        return (f"Definition gen_incomplete_test (target_ndim target_nchunks_initialized target_nchunks : Z) : bool := ({test})%Z.\n"
+                "Definition gen_already_computed (has_pipeline : bool) (outs : list tgt) : option bool :=\n"
+                "  already_computed_with gen_incomplete_test has_pipeline outs.\n")
+    if name == "resume.wiring":
+        # FinalizedPlan.execute marks nodes computed only through already_computed, only when resume is requested
+        ex = _method(tree, "FinalizedPlan", "execute")
+        marks = [n for n in ast.walk(tree) if isinstance(n, ast.Assign) and any("'computed'" in U(t_) or '"computed"' in U(t_) for t_ in n.targets)]
+        inex = [n for n in ast.walk(ex) if n in marks]
+        if len(marks) != 1 or len(inex) != 1 or U(marks[0].value) != "already_computed(name, dag, nodes)":
+            raise TranslationError("the 'computed' mark must be set in one place, FinalizedPlan.execute, from already_computed(name, dag, nodes)")
+        guard = [n for n in ast.walk(ex) if isinstance(n, ast.If) and marks[0] in list(ast.walk(n))]
+        if not guard or U(guard[0].test) != "resume":
+            raise TranslationError("the 'computed' marks must be guarded by `if resume:`")
+        return "(* resume.wiring: 'computed' is set only by FinalizedPlan.execute under `if resume:` from already_computed *)\n"
     raise TranslationError(name)
 
 
@@ -858,7 +909,7 @@ def check(names=None, repo=None, tag="all"):
     except Exception as e:
         return False, f"translation failed: {type(e).__name__}: {e}", ""
     text = ("(* GENERATED on every run from /repo by harness/translate.py - do not edit *)\n"
-            "From CubedV Require Import Model.Util Model.Memory Model.Rechunk Model.Regular Model.Dag Model.FuseGuard Model.Admission.\nLocal Open Scope Z_scope.\n\n" + "\n".join(defs))
+            "From CubedV Require Import Model.Util Model.Memory Model.Rechunk Model.Regular Model.Dag Model.FuseGuard Model.Admission Model.Resume.\nLocal Open Scope Z_scope.\n\n" + "\n".join(defs))
     (gen / "Gen.v").write_text(text)
     (gen / "GenEquiv.v").write_text(GEN_HEADER + "".join(EQUIV[n] for n in order))
     for f in ("Gen.v", "GenEquiv.v"):
